@@ -182,6 +182,31 @@ Proof.
 Qed.
 Print Assumptions C05_composite_reset_drop_exact.
 
+(* (2a) timeout(d, sleep(x)) inside the proved fragment.  A task that reaches the step at instant
+   [now] (x, d below the far-future cut-off FARK, so both deadlines are now + x and now + d)
+   gets its result exactly at now + min x d, and the result is Ok (logged 1) iff x <= d -- the
+   tie goes to the inner sleep because Timeout::poll polls the value first -- and Elapsed
+   (logged 0) otherwise; the other of the two Sleeps is dropped at that instant and can never
+   wake the task again.  As for the other steps of the fragment this is a statement about
+   COMPLETE runs of the composite model (both drivers, the waker table, the event set as
+   specified in CQueue.Spec, at most two modules, any number of tasks, tasks spawned at
+   sim-start or by a message): the run ends, every task is finished and has logged exactly
+   the closed form exp_run.  No fairness or FIFO hypothesis is needed: inside one event the
+   run queue is polled in FIFO order (a fact of the model, checked against des by L2), but
+   exp_run does not depend on that order since the tasks of the fragment do not communicate. *)
+Theorem C05_composite_timeout_sleep_exact :
+  (forall d x, d < FARK -> x < FARK -> frag_step (STimeout d (ISleep x))) /\
+  (forall now d x r, exp_run now (STimeout d (ISleep x) :: r) =
+     (now + N.min x d) :: (if x <=? d then 1 else 0) :: exp_run (now + N.min x d) r) /\
+  (forall ts, Forall init_ok ts ->
+     exists w, run_tasks true ts = (w, true) /\
+       Forall2 (fun tk0 tk => t_fin tk = true /\ t_log tk = exp_run (t_start tk0) (t_steps tk0)) ts (w_tasks w)).
+Proof.
+  split; [intros d x H1 H2; split; assumption|].
+  split; [intros now d x r; cbn [exp_run]; destruct (x <=? d); reflexivity|exact composite_sleep_exact].
+Qed.
+Print Assumptions C05_composite_timeout_sleep_exact.
+
 Theorem C05_fragment_scripts_decode_ok : forall input,
   Forall (fun tk => Forall frag_step (t_steps tk) /\ Forall (fun x => x < TMAX) (exp_run (t_start tk) (t_steps tk))) (decode input) ->
   Forall init_ok (decode input).
@@ -368,6 +393,24 @@ Example C05_nonvacuous_reset_drop :
   Forall init_ok (decode script) /\
   map (fun tk => exp_run (t_start tk) (t_steps tk)) (decode script) = [[10; 10; 20]; [3; 10; 10]; [10; 10; 14]] /\
   firstn 17 (run script) = [3; 10; 10; 20; 1;  3; 3; 10; 10; 1;  3; 10; 10; 14; 1;  1; 20].
+Proof.
+  cbn zeta. split; [|vm_compute; split; reflexivity].
+  apply decode_init_ok. init_ok_by_computation.
+Qed.
+
+(* non-vacuity of (2a): three tasks on two modules.  Task 0: timeout(10, sleep 4) is Ok at 4,
+   timeout(5, sleep 5) is the tie: Ok at 9, timeout(3, sleep 8) elapses at 12, log.  Task 1
+   (module 1, spawned by a message at 2): timeout(2, sleep 2) ties at 4, sleep 5, timeout(0,
+   sleep 1) elapses at once at 9, timeout(4, sleep 0) is Ok at once.  Task 2 (module 0):
+   timeout(7, sleep 9) elapses at 7, sleep 2, timeout(3, sleep 3) ties at 12 -- the instant
+   task 0's timeout elapses in the same module.  The script satisfies the theorem's hypothesis
+   and the model's run gives the demanded logs. *)
+Example C05_nonvacuous_timeout_sleep :
+  let script := [1; 3; 15; 0; 0; 3; 10; 0; 4; 3; 5; 0; 5; 3; 3; 0; 8; 8;  16; 1; 2; 3; 2; 0; 2; 1; 5; 3; 0; 0; 1; 3; 4; 0; 0;
+                 12; 0; 0; 3; 7; 0; 9; 1; 2; 3; 3; 0; 3] in
+  Forall init_ok (decode script) /\
+  map (fun tk => exp_run (t_start tk) (t_steps tk)) (decode script) = [[4; 1; 9; 1; 12; 0; 12]; [4; 1; 9; 9; 0; 9; 1]; [7; 0; 9; 12; 1]] /\
+  firstn 27 (run script) = [7; 4; 1; 9; 1; 12; 0; 12; 1;  7; 4; 1; 9; 9; 0; 9; 1; 1;  5; 7; 0; 9; 12; 1; 1;  1; 12].
 Proof.
   cbn zeta. split; [|vm_compute; split; reflexivity].
   apply decode_init_ok. init_ok_by_computation.
